@@ -68,6 +68,10 @@ type Ctx struct {
 	Verbose          bool
 	// OnPanic, when set, supplies the history for a violation raised by a panic in repo code.
 	OnPanic func() any
+	// Exclude, when set, is asked once at the end of a case that recorded violations. A non-empty answer names
+	// a listed known finding whose trigger occurred in this execution (DESIGN §12.5): the case then counts as
+	// inconclusive (outside the explored family), never as held.
+	Exclude func() string
 
 	mu      sync.Mutex
 	res     CaseResult
@@ -224,6 +228,18 @@ func runCase(p *Prop, seed int64, tier string, index int, scratch string, verbos
 		}()
 		p.Run(c)
 	}()
+	if c.Exclude != nil && c.Violated() {
+		if why := c.Exclude(); why != "" {
+			c.mu.Lock()
+			c.res.Inconclusive = fmt.Sprintf("%s (suppressed: %s: %s)", why, c.res.Violations[0].Kind, c.res.Violations[0].Detail)
+			c.res.Violations = nil
+			if c.res.Feats == nil {
+				c.res.Feats = map[string]int64{}
+			}
+			c.res.Feats["cases_outside_family_known_finding"]++
+			c.mu.Unlock()
+		}
+	}
 	c.mu.Lock()
 	defer c.mu.Unlock()
 	res = c.res
